@@ -4,7 +4,8 @@ Model: coq/theories/C15/Oks.v (per-keypoint terms hold the exact rational
 *argument* of exp; matching on rational score matrices); theorems:
 coq/theories/C15/Props.v (OKS over Coq's reals; matching/greedy/IoU closed).
 Tie: correspondence with compute_oks, compute_instance_area, match_instances
-(duck-typed frames), greedy_matching, hungarian_matching (by contract, against
+(duck-typed frames), match_frame_pairs (lists of duck-typed frame pairs, model
+coq/theories/C15/Frames.v), greedy_matching, hungarian_matching (by contract, against
 the brute-force optimum), compute_iou, compute_cosine_sim,
 compute_euclidean_distance on generated inputs.
 Oracle: the property statement evaluated on the implementation's own outputs
@@ -33,6 +34,9 @@ PROP_FILES = [core.THEORIES / "C15" / "Props.v"]
 PREAMBLE = ("From SV Require Import C15.Oks.\nFrom Coq Require Import List QArith.\n"
             "Import ListNotations.\nOpen Scope Q_scope.\n")
 RENDER = "rresult"
+PREAMBLE_F = ("From SV Require Import C15.Oks C15.Frames.\nFrom Coq Require Import List QArith.\n"
+              "Import ListNotations.\nOpen Scope Q_scope.\n")
+RENDER_F = "rfresult"
 ATOL, RTOL = 1e-12, 1e-9          # float64 paths
 SEL_F22 = "oks_npr_ne_1"
 SEL_F51 = "match_zero_gt"
@@ -215,6 +219,51 @@ def gen_match(rng):
     return {"kind": "match", "n_nodes": n_nodes, "gts": gts, "prs": prs, "scores": scores,
             "thr": thr, "sd": sd, "sc": sc}
 
+FRAME_SHAPES = ["normal"] * 8 + ["empty_pr"] * 4 + ["empty_gt"] * 2 + ["both_empty"] * 2 + ["below"] * 4
+
+
+def gen_frames(rng):
+    """A list of frame pairs for match_frame_pairs (the frames of one evaluation): every pair
+    has 0..4 gt and 0..5 predicted instances; shapes: normal, predicted frame empty, gt frame
+    empty, both empty, predictions that cannot be matched (all keypoints missing, or far away so
+    that the OKS underflows to 0 <= threshold, or exact copies under threshold 1)."""
+    n_nodes = rng.randint(1, 4)
+    R = rng.choice([4, 16, 64])
+    p_nan = rng.choice([0, 0, 0.25])
+    thr = rng.choice([F(0), F(0), F(0), F(1, 4), F(1, 2), F(7, 8), F(1)])
+    sd = rng.choice([None, None, F(1, 8), F(1, 2), F(1)])
+    sc = rng.choice([None, None, F(10), F(100)])
+    frames = []
+    for _ in range(rng.choice([1, 2, 2, 3, 3, 4, 5, 6])):
+        shape = rng.choice(FRAME_SHAPES)
+        n_gt = 0 if shape in ("empty_gt", "both_empty") else rng.choice([1, 2, 2, 3, 4])
+        n_pr = 0 if shape in ("empty_pr", "both_empty") else rng.choice([1, 2, 2, 3, 4, 5])
+        gts = [gen_pose(rng, n_nodes, 2, R, p_nan, shape=rng.choice(["free"] * 8 + ["single", "allmiss"]))
+               for _ in range(n_gt)]
+        prs = []
+        for _ in range(n_pr):
+            r = rng.random()
+            if shape == "below":
+                if thr == 1 and gts and r < 0.5:
+                    prs.append([list(p) for p in rng.choice(gts)])          # OKS = 1 is not above 1
+                elif r < 0.6 or not gts:
+                    prs.append([[None, None] for _ in range(n_nodes)])      # nothing predicted: OKS 0
+                else:                                                      # far away: exp underflows to 0
+                    prs.append(shift_poses([noisy_copy(rng, rng.choice(gts), 2, 0, 2, R)], [F(10 ** 7), F(-10 ** 7)])[0])
+            elif gts and r < 0.35:
+                prs.append([list(p) for p in rng.choice(gts)])
+            elif gts and r < 0.85:
+                prs.append(noisy_copy(rng, rng.choice(gts), rng.choice([1, 1, 2, 4]), rng.choice([0, 0.2]), 2, R))
+            else:
+                prs.append(gen_pose(rng, n_nodes, 2, R, p_nan, shape="free"))
+        scores = [F(rng.randint(0, 8), 8) for _ in range(n_pr)]
+        if rng.random() < 0.2:
+            off = [F(rng.choice([-1000, -64, 512, 4096])) for _ in range(2)]
+            gts, prs = shift_poses(gts, off), shift_poses(prs, off)
+        frames.append({"shape": shape, "gts": gts, "prs": prs, "scores": scores})
+    return {"kind": "frames", "n_nodes": n_nodes, "frames": frames, "thr": thr, "sd": sd, "sc": sc,
+            "defaults": thr == 0 and sd is None and sc is None and rng.random() < 0.5}
+
 
 def gen_cost(rng, hung):
     n, m = rng.randint(0 if not hung else 1, 4), rng.randint(0 if not hung else 1, 4)
@@ -302,6 +351,9 @@ def term(c, flags):
     if k == "match":
         return (f"CMatch {core.cbool(flags['F51'])} {len(c['gts'])} {core.clist(c['scores'], core.cq)} "
                 f"{cmatrix(c['M'])} {core.cq(c['thr'])}")
+    if k == "frames":
+        fp = lambda f: f"({core.cnat(len(f['gts']))}, {core.clist(f['scores'], core.cq)}, {cmatrix(f['M'])})"
+        return f"CFrames {core.cbool(flags['F51'])} {core.cq(c['thr'])} {core.clist(c['frames'], fp)}"
     if k == "greedy":
         return f"CGreedy {cmatrix(c['C'])}"
     if k == "hung":
@@ -552,6 +604,42 @@ def oracle_match(c, res):
         return (f"matched {gs} + missed {missed} do not account for every gt instance exactly once", None)
     return None
 
+def oracle_frames(c, res, per_frame):
+    """The property over the frames of an evaluation, on the implementation's own output.
+    res = ('ok', pairs [((k, g), (k', p), oks)], missed [(k, g)]) | ('raises', kind);
+    per_frame[k] = result of match_instances on frame pair k alone (run_match)."""
+    frames = c["frames"]
+    if res[0] == "raises":
+        if res[1] == "ValueError" and any(not f["gts"] and f["prs"] for f in frames):
+            return ("match_frame_pairs raises ValueError for a frame pair with predictions and no gt instance", SEL_F51)
+        return (f"match_frame_pairs raises {res[1]}", None)
+    _, pairs, missed = res
+    gs = [g for g, _, _ in pairs]
+    ps = [p for _, p, _ in pairs]
+    if any(g is None for g in gs + missed) or any(p is None for p in ps):
+        return ("returned an instance that is in none of the frames", None)
+    if any(g[0] != p[0] for g, p, _ in pairs):
+        return ("a ground-truth instance is paired with a prediction of another frame", None)
+    if len(set(gs)) != len(gs) or len(set(missed)) != len(missed) or set(gs) & set(missed):
+        return ("a ground-truth instance is reported twice (matched twice, missed twice, or both)", None)
+    if len(set(ps)) != len(ps):
+        return ("a predicted instance is matched twice", None)
+    all_gt = [(k, i) for k, f in enumerate(frames) for i in range(len(f["gts"]))]
+    if len(pairs) + len(missed) != len(all_gt) or sorted(gs + missed) != all_gt:
+        lost = sorted(set(all_gt) - set(gs) - set(missed))
+        return (f"matched ({len(pairs)}) + missed ({len(missed)}) do not account for the {len(all_gt)} gt instances "
+                f"of the {len(frames)} frame pairs; unaccounted (frame, instance): {lost[:8]}", None)
+    # the list result is the per-frame results laid end to end, in frame order
+    want_p, want_m = [], []
+    for k, r in enumerate(per_frame):
+        if r[0] != "ok":
+            return (f"match_instances raises {r[1]} on frame pair {k} alone but match_frame_pairs returned", None)
+        want_p += [((k, g), (k, p)) for g, p, _ in r[1]]
+        want_m += [(k, g) for g in r[2]]
+    if [(g, p) for g, p, _ in pairs] != want_p or missed != want_m:
+        return ("match_frame_pairs is not the concatenation of match_instances over the frame pairs in order", None)
+    return None
+
 
 def is_greedy_run(C, rows, cols):
     """Contract of greedy_matching: one-to-one, maximal, each pick has minimal cost
@@ -598,6 +686,44 @@ def run_match(c, impl):
     missed = [gid.get(id(a.instance)) for a in fn]
     return ("ok", pairs, missed)
 
+def frame_case(c, f):
+    """Frame pair f of a frames case as a stand-alone match case."""
+    return {"kind": "match", "n_nodes": c["n_nodes"], "gts": f["gts"], "prs": f["prs"], "scores": f["scores"],
+            "thr": c["thr"], "sd": c["sd"], "sc": c["sc"]}
+
+
+def run_frames(c, impl):
+    """match_frame_pairs on a list of duck-typed frame pairs; instances are reported as
+    (position of the frame pair, index in the frame)."""
+    pairs_in, gid, pid = [], {}, {}
+    keep = []
+    for k, f in enumerate(c["frames"]):
+        gi = [Duck.Inst(impl.arr([g], c["n_nodes"], 2)[0]) for g in f["gts"]]
+        pi = [Duck.Inst(impl.arr([p], c["n_nodes"], 2)[0], float(s)) for p, s in zip(f["prs"], f["scores"])]
+        gid.update({id(x): (k, i) for i, x in enumerate(gi)})
+        pid.update({id(x): (k, i) for i, x in enumerate(pi)})
+        keep += gi + pi
+        pairs_in.append((Duck(gi, frame_idx=3 * k + 1), Duck(pi, frame_idx=3 * k + 1)))
+    kw = {}
+    if not c.get("defaults"):
+        kw["threshold"] = float(c["thr"])
+    if c["sd"] is not None:
+        kw["stddev"] = float(c["sd"])
+    if c["sc"] is not None:
+        kw["scale"] = float(c["sc"])
+    n_in = [(len(a.instances), len(b.instances)) for a, b in pairs_in]
+    try:
+        with warnings.catch_warnings():
+            warnings.simplefilter("ignore")
+            pos, fn = impl.ev.match_frame_pairs(pairs_in, **kw)
+    except Exception as e:
+        return ("raises", type(e).__name__)
+    if len(pairs_in) != len(c["frames"]) or [(len(a.instances), len(b.instances)) for a, b in pairs_in] != n_in:
+        return ("raises", "InputMutated")
+    pairs = [(gid.get(id(a.instance)), pid.get(id(b.instance)), float(o)) for a, b, o in pos]
+    missed = [gid.get(id(a.instance)) for a in fn]
+    return ("ok", pairs, missed)
+
 
 def oks_float_matrix(c, impl):
     """The OKS of every (gt, prediction) pair as match_instances computes it
@@ -633,7 +759,7 @@ def detect_flags(impl):
 def gen_cases(rng, thorough):
     n = 30000 if thorough else 1500
     mix = [("oks", 0.36), ("match", 0.30), ("area", 0.06), ("greedy", 0.08), ("hung", 0.05), ("hunginf", 0.04),
-           ("iou", 0.05), ("cos", 0.04), ("euc", 0.03)]
+           ("iou", 0.05), ("cos", 0.04), ("euc", 0.03), ("frames", 0.10)]
     cases = []
     for kind, w in mix:
         for _ in range(max(4, int(n * w))):
@@ -649,6 +775,8 @@ def gen_cases(rng, thorough):
                 cases.append(gen_cost(rng, kind == "hung"))
             elif kind == "iou":
                 cases.append(gen_iou(rng))
+            elif kind == "frames":
+                cases.append(gen_frames(rng))
             else:
                 cases.append(gen_vec(rng, kind))
     return cases
@@ -705,6 +833,20 @@ def eval_case(c, m, impl, flags, rng):
                     any(a[2] != b[2] for a, b in zip(mp, res[1])):
                 diff = f"match impl {res[1:]} model {(mp, m[1])}"
         bad = oracle_match(c, res)
+        return diff, bad, res
+    if k == "frames":
+        res = run_frames(c, impl)
+        if m is None:
+            if not (res[0] == "raises" and res[1] == "ValueError"):
+                diff = f"model: ValueError, impl: {res[:2]}"
+        elif res[0] == "raises":
+            diff = f"impl raises {res[1]}, model {m}"
+        else:
+            mp = [((kk, g), (kk, p), float(F(*v))) for kk, (g, p, v) in m[0]]
+            mm = [tuple(x) for x in m[1]]
+            if mp != res[1] or mm != res[2]:
+                diff = f"match_frame_pairs impl {res[1:]} model {(mp, mm)}"
+        bad = oracle_frames(c, res, [run_match(frame_case(c, f), impl) for f in c["frames"]])
         return diff, bad, res
     if k == "greedy":
         C = np.array([[np.nan if v is None else float(v) for v in r] for r in c["C"]],
@@ -788,7 +930,46 @@ def nontrivial(c):
         return len(c["gts"]) >= 1 and len(c["prs"]) >= 1
     if k in ("greedy", "hung", "hunginf"):
         return c["n"] >= 2 and c["m"] >= 2
+    if k == "frames":
+        return len(c["frames"]) >= 2 and any(f["gts"] and f["prs"] for f in c["frames"])
     return True
+
+def attach_matrices(c, impl):
+    """The float64 OKS matrices (from compute_oks itself) the matching model runs on."""
+    if c["kind"] == "match":
+        c["M"] = oks_float_matrix(c, impl)
+    elif c["kind"] == "frames":
+        for f in c["frames"]:
+            f["M"] = oks_float_matrix(frame_case(c, f), impl)
+
+
+def no_matrix(c):
+    return (c["kind"] == "match" and c["M"] is None) or \
+        (c["kind"] == "frames" and any(f["M"] is None for f in c["frames"]))
+
+
+def strip(c):
+    """The case without the derived matrices (what is recorded / replayed)."""
+    d = {k: v for k, v in c.items() if k != "M"}
+    if c["kind"] == "frames":
+        d["frames"] = [{k: v for k, v in f.items() if k != "M"} for f in c["frames"]]
+    return d
+
+
+def eval_model(cases, flags):
+    """Model values in case order: Oks.run for single calls, Frames.frun for frame lists."""
+    single = [i for i, c in enumerate(cases) if c["kind"] != "frames"]
+    lists = [i for i, c in enumerate(cases) if c["kind"] == "frames"]
+    out = [None] * len(cases)
+    if single:
+        vals = core.coq_eval_sharded(PREAMBLE, [term(cases[i], flags) for i in single], "run", RENDER, shard=120, jobs=12)
+        for i, v in zip(single, vals):
+            out[i] = v
+    if lists:
+        vals = core.coq_eval_sharded(PREAMBLE_F, [term(cases[i], flags) for i in lists], "frun", RENDER_F, shard=60, jobs=12)
+        for i, v in zip(lists, vals):
+            out[i] = v
+    return out
 
 
 def check(run: core.Run) -> int:
@@ -801,18 +982,17 @@ def check(run: core.Run) -> int:
     corpus = load_corpus()
     cases = corpus + gen_cases(run.rng, thorough)
     for c in cases:
-        if c["kind"] == "match":
-            c["M"] = oks_float_matrix(c, impl)
-    bad_m = [c for c in cases if c["kind"] == "match" and c["M"] is None]
+        attach_matrices(c, impl)
+    bad_m = [c for c in cases if no_matrix(c)]
     for c in bad_m:
-        run.violation("failing-input", {"case": enc(c), "oracle": "compute_oks raised on a single prediction"})
-    cases = [c for c in cases if not (c["kind"] == "match" and c["M"] is None)]
-    model = core.coq_eval_sharded(PREAMBLE, [term(c, flags) for c in cases], "run", RENDER, shard=120, jobs=12)
+        run.violation("failing-input", {"case": enc(strip(c)), "oracle": "compute_oks raised on a single prediction"})
+    cases = [c for c in cases if not no_matrix(c)]
+    model = eval_model(cases, flags)
     disagree, dist, nfail = 0, {}, 0
     stats = {"oks_entries": 0, "oks_mid": 0, "match_pairs": 0}
     for c, m in zip(cases, model):
         dist[c["kind"]] = dist.get(c["kind"], 0) + 1
-        run.case(enc({k: v for k, v in c.items() if k != "M"}), nontrivial(c))
+        run.case(enc(strip(c)), nontrivial(c))
         try:
             diff, bad, out = eval_case(c, m, impl, flags, run.rng)
         except Exception as e:
@@ -823,30 +1003,39 @@ def check(run: core.Run) -> int:
             stats["oks_mid"] += sum(1 for v in vals if 0.01 < v < 0.99)
         if c["kind"] == "match" and out and out[0] == "ok":
             stats["match_pairs"] += len(out[1])
+        if c["kind"] == "frames":
+            for f in c["frames"]:
+                stats["frame_" + f["shape"]] = stats.get("frame_" + f["shape"], 0) + 1
+            stats["frame_lists_with_gt_but_empty_prediction_frame"] = stats.get(
+                "frame_lists_with_gt_but_empty_prediction_frame", 0) + any(f["gts"] and not f["prs"] for f in c["frames"])
+            if out and out[0] == "ok":
+                stats["frame_list_pairs"] = stats.get("frame_list_pairs", 0) + len(out[1])
+                stats["frame_list_missed"] = stats.get("frame_list_missed", 0) + len(out[2])
         if diff:
             disagree += 1
             if disagree <= 3:
                 run.log(f"model/impl disagree: {diff} on {json.dumps(enc(c))[:400]}")
         if bad:
             nfail += 1
-            run.violation("failing-input", {"case": enc(c), "oracle": bad[0], "correspondence": diff,
+            run.violation("failing-input", {"case": enc(strip(c)), "oracle": bad[0], "correspondence": diff,
                                             "impl": enc(out) if not isinstance(out, tuple) else str(out)[:2000]},
                           selector=bad[1])
         elif diff:
-            run.proof_broken.append(f"correspondence C15 ({c['kind']}): {diff}; case {json.dumps(enc(c))[:800]}")
-    run.obligation("correspondence: Oks.run (Coq, vm_compute) == evaluation.py / tracking/utils.py (/repo) on every case",
+            run.proof_broken.append(f"correspondence C15 ({c['kind']}): {diff}; case {json.dumps(enc(strip(c)))[:800]}")
+    run.obligation("correspondence: Oks.run / Frames.frun (Coq, vm_compute) == evaluation.py / tracking/utils.py (/repo) on every case",
                    disagree == 0, f"{disagree} disagreements")
     run.coverage.update({
         "input_distribution": dist, "disagreements": disagree, "oracle_failures": nfail, "stats": stats,
         "corpus_cases": len(corpus), "code_behaviour": flags,
         "rule": "case = (function, full input); non-trivial = at least one gt with a visible keypoint and one "
-                "prediction (oks/match), matrices >= 2x2 (greedy/hungarian); distinct by full case content",
+                "prediction (oks/match), matrices >= 2x2 (greedy/hungarian), >= 2 frame pairs one of which has gt and "
+                "predictions (frames); distinct by full case content",
         "tolerance": {"atol": ATOL, "rtol": RTOL, "indices": "exact", "matched OKS values": "bit-exact"},
     })
-    for k in ("oks", "match", "greedy"):
+    for k in ("oks", "match", "greedy", "frames"):
         for c in cases:
             if c["kind"] == k:
-                run.sample(enc({kk: v for kk, v in c.items() if kk != "M"}))
+                run.sample(enc(strip(c)))
                 break
     run.trusted += [
         "numpy float64 kernels (exp, nanmin/nanmax, sum, argsort) are modelled by exact rationals / the exact argument of "
@@ -869,9 +1058,11 @@ def replay(run: core.Run, path: str) -> int:
     flags = detect_flags(impl)
     rep = json.load(open(path))
     c = dec(rep["case"] if "case" in rep else rep)
-    if c["kind"] == "match":
-        c["M"] = oks_float_matrix(c, impl)
-    m = core.coq_eval_sharded(PREAMBLE, [term(c, flags)], "run", RENDER)[0]
+    attach_matrices(c, impl)
+    if no_matrix(c):
+        print(json.dumps({"oracle": "compute_oks raised on a single prediction"}))
+        return 1
+    m = eval_model([c], flags)[0]
     diff, bad, out = eval_case(c, m, impl, flags, run.rng)
     print(json.dumps({"oracle": bad, "correspondence": diff, "impl": str(out)[:1000]}))
     return 1 if (bad and not (bad[1] and run.selector_known(bad[1]))) else 0
